@@ -42,6 +42,7 @@ fn flag_scenario(s: [usize; 3]) {
         assert!(poll_flag(&mut clones[i], W0 + i), "C07: raised flag does not resolve");
         i += 1;
     }
+    kani::cover!(true, "schedule ran to its end");
     std::mem::forget(clones);
     std::mem::forget(flag);
 }
@@ -118,6 +119,7 @@ fn ticket_scenario(s: [usize; 3], job_ends: bool) {
     } else {
         assert!(tv::poll_with(W0 + 2, Pin::new(&mut t2)).is_pending(), "C07: unrelated ticket resolved");
     }
+    kani::cover!(true, "schedule ran to its end");
     std::mem::forget((t0, t1, t2, a, gone, done_a, done_b));
 }
 
